@@ -75,6 +75,71 @@ pub fn run_c01(r: &mut Report) {
     let res = no_panic(|| in_toto_verify(&lay, owner_keys(&[&o1]), d.path().to_str().unwrap(), None));
     r.case("content-changed-after-signing", json!({"field": "steps[0].threshold"}), "Err",
            match &res { Ok(v) => verdict(v), Err(p) => format!("panic: {}", p) }, matches!(&res, Ok(v) if v.is_err()));
+    tamper_every_leaf(r);
+}
+
+/// every leaf of the signed part of a rich layout changed in isolation (signatures kept): the owner signature must no longer verify.
+/// String leaves are changed by appending a character AND by swapping each special character for its escaped spelling
+/// (line feed <-> backslash-n, tab <-> backslash-t, backslash <-> two backslashes, quote <-> backslash-quote).
+pub fn tamper_every_leaf(r: &mut Report) {
+    use in_toto::models::{inspection::Inspection, rule::{Artifact, ArtifactRule}, step::Step, LayoutMetadataBuilder, VirtualTargetPath};
+    let owner = key(1);
+    let f = key(2);
+    let p = |s: &str| VirtualTargetPath::new(s.to_string()).unwrap();
+    // each string carries exactly ONE kind of special character, so that a writer with a "nothing to escape here" shortcut is exercised too
+    let step = Step::new("build tab\there").threshold(2).add_key(f.key_id().clone())
+        .add_expected_material(ArtifactRule::Match { pattern: p("src/*"), in_src: Some("cr\rx".into()), with: Artifact::Products, in_dst: Some("out".into()), from: "fetch".into() })
+        .add_expected_product(ArtifactRule::Create(p("back\\slash"))).add_expected_product(ArtifactRule::Disallow(p("*")))
+        .expected_command(cmd(&["sh", "-c", "quo\"te"]));
+    let insp = Inspection::new("check").run(cmd(&["sh", "-c", "echo one\necho two"])).add_expected_material(ArtifactRule::Allow(p("*")));
+    let l = LayoutMetadataBuilder::new().expires({ use chrono::TimeZone; chrono::Utc.timestamp_opt(chrono::Utc::now().timestamp() + 86400, 0).unwrap() })
+        .readme("line1\nline2".into()).add_step(step).add_inspect(insp).add_key(f.public().clone()).build().unwrap();
+    let lay = signed_layout(&l, &[&owner]);
+    let control = matches!(no_panic(|| lay.verify(1, [owner.public()])), Ok(Ok(_)));
+    let doc = serde_json::to_value(&lay).unwrap();
+    fn leaves(v: &serde_json::Value, cur: &mut Vec<String>, out: &mut Vec<Vec<String>>) {
+        match v {
+            serde_json::Value::Object(o) => for (k, x) in o { cur.push(k.clone()); leaves(x, cur, out); cur.pop(); },
+            serde_json::Value::Array(a) => { out.push(cur.clone()); for (i, x) in a.iter().enumerate() { cur.push(i.to_string()); leaves(x, cur, out); cur.pop(); } },
+            _ => out.push(cur.clone()),
+        }
+    }
+    let mut paths = vec![];
+    leaves(&doc["signed"], &mut vec!["signed".to_string()], &mut paths);
+    let mut n = 0; let mut accepted: Vec<String> = vec![];
+    for path in &paths {
+        let mut cur = &doc;
+        for k in path { cur = match cur { serde_json::Value::Array(a) => &a[k.parse::<usize>().unwrap()], other => &other[k.as_str()] }; }
+        let mut variants: Vec<serde_json::Value> = vec![];
+        match cur {
+            serde_json::Value::String(s) => {
+                variants.push(json!(format!("{}x", s)));
+                for (real, spelled) in [("\n", "\\n"), ("\t", "\\t"), ("\r", "\\r"), ("\\", "\\\\"), ("\"", "\\\""), ("\n", "\\u000a"), ("\t", "\\u0009")] {
+                    if s.contains(real) { variants.push(json!(s.replacen(real, spelled, 1))); }
+                    if s.contains(spelled) { variants.push(json!(s.replacen(spelled, real, 1))); }
+                }
+            }
+            serde_json::Value::Number(x) => { variants.push(json!(x.as_i64().unwrap_or(0) + 1)); variants.push(json!(0)); }
+            serde_json::Value::Bool(b) => variants.push(json!(!b)),
+            serde_json::Value::Array(a) => { let mut b = a.clone(); if let Some(x) = b.pop() { variants.push(json!(b.clone())); b.push(x.clone()); b.push(x); variants.push(json!(b)); } }
+            _ => {}
+        }
+        for v in variants {
+            if &v == cur { continue; }
+            let mut d = doc.clone();
+            { let mut c = &mut d; for k in &path[..path.len() - 1] { c = match c { serde_json::Value::Array(a) => &mut a[k.parse::<usize>().unwrap()], other => &mut other[k.as_str()] }; }
+              let last = &path[path.len() - 1];
+              match c { serde_json::Value::Array(a) => a[last.parse::<usize>().unwrap()] = v.clone(), other => other[last.as_str()] = v.clone() } }
+            n += 1;
+            if let Ok(mb) = serde_json::from_str::<Metablock>(&d.to_string()) {
+                // a change the parser normalises away (same parsed value) is not a change of content
+                if mb.metadata == lay.metadata { continue; }
+                if matches!(no_panic(|| mb.verify(1, [owner.public()])), Ok(Ok(_))) { accepted.push(format!("{} := {}", path.join("."), v)); }
+            }
+        }
+    }
+    r.case("tamper-every-leaf", json!({"leaves": paths.len(), "tampered_documents": n, "untampered_verifies": control}), "no tampered document verifies",
+           format!("accepted: {:?}", accepted), control && accepted.is_empty() && n > 40);
 }
 
 pub fn run_c06(r: &mut Report) {
@@ -140,6 +205,28 @@ pub fn run_c04(r: &mut Report) {
                 m },
             keys: { let ec = in_toto::crypto::PrivateKey::from_pkcs8(&std::fs::read("/repo/tests/ecdsa/ec.pk8.der").unwrap(), in_toto::crypto::SignatureScheme::EcdsaP256Sha256).unwrap(); vec![ec.public().clone(), k2.public().clone()] },
             t: 2, expect: false },
+        // a key whose scheme the library cannot check never contributes: garbage attributed to it, or a genuine signature of the same material
+        C { id: "unknown-scheme-key-garbage-signature", mb: {
+                let mut m = sign(&[]);
+                let unk = PublicKey::from_spki(&std::fs::read("/repo/tests/rsa/rsa-2048.spki.der").unwrap(), in_toto::crypto::SignatureScheme::Unknown("rsa-pkcs1v15-sha256".into())).unwrap();
+                m.signatures = vec![serde_json::from_value(json!({"keyid": serde_json::to_value(unk.key_id()).unwrap(), "sig": "00".repeat(256)})).unwrap()];
+                m },
+            keys: vec![PublicKey::from_spki(&std::fs::read("/repo/tests/rsa/rsa-2048.spki.der").unwrap(), in_toto::crypto::SignatureScheme::Unknown("rsa-pkcs1v15-sha256".into())).unwrap()],
+            t: 1, expect: false },
+        C { id: "unknown-scheme-key-plus-one-valid-t2", mb: {
+                let mut m = sign(&[&k1]);
+                let unk = PublicKey::from_spki(&std::fs::read("/repo/tests/ed25519/ed25519-1.spki.der").unwrap(), in_toto::crypto::SignatureScheme::Unknown("x".into())).unwrap();
+                let genuine = serde_json::to_value(&m.signatures[0]).unwrap();
+                m.signatures.push(serde_json::from_value(json!({"keyid": serde_json::to_value(unk.key_id()).unwrap(), "sig": genuine["sig"]})).unwrap());
+                m },
+            keys: vec![k1.public().clone(), PublicKey::from_spki(&std::fs::read("/repo/tests/ed25519/ed25519-1.spki.der").unwrap(), in_toto::crypto::SignatureScheme::Unknown("x".into())).unwrap()],
+            t: 2, expect: false },
+        // the same key material declared with another scheme is another key: its id differs and the signature does not count
+        C { id: "same-material-other-scheme", mb: {
+                let rsa = in_toto::crypto::PrivateKey::from_pkcs8(&std::fs::read("/repo/tests/rsa/rsa-2048.pk8.der").unwrap(), in_toto::crypto::SignatureScheme::RsaSsaPssSha256).unwrap();
+                signed_link(&l, &[&rsa]) },
+            keys: vec![PublicKey::from_spki(&std::fs::read("/repo/tests/rsa/rsa-2048.spki.der").unwrap(), in_toto::crypto::SignatureScheme::RsaSsaPssSha512).unwrap()],
+            t: 1, expect: false },
         C { id: "tmax", mb: sign(&[&k1]), keys: pubs(&[&k1]), t: u32::MAX, expect: false },
         C { id: "no-signatures", mb: sign(&[]), keys: pubs(&[&k1]), t: 1, expect: false },
         C { id: "no-keys", mb: sign(&[&k1]), keys: vec![], t: 1, expect: false },
